@@ -43,7 +43,9 @@ type runHooks struct {
 }
 
 // runProgram parses and checks the source, drives the builder, and checks the output.
-func runProgram(c *progCase, hooks *runHooks) *progRun {
+func runProgram(c *progCase, hooks *runHooks) *progRun { return runProgramOpts(c, hooks, nil) }
+
+func runProgramOpts(c *progCase, hooks *runHooks, tweak func(o *drive.Options)) *progRun {
 	pr := &progRun{Case: c, Fset: token.NewFileSet(), SrcMap: map[string]string{}}
 	srcs := map[string][]byte{}
 	var gnames []string
@@ -73,6 +75,9 @@ func runProgram(c *progCase, hooks *runHooks) *progRun {
 	}
 	if hooks != nil && hooks.Setup != nil {
 		o.Setup = func(d *drive.Driver) { hooks.Setup(d, pr) }
+	}
+	if tweak != nil {
+		tweak(&o)
 	}
 	pr.Res = drive.Build(pr.Fset, pr.Files, srcs, o)
 	if pr.Res.Accepted() {
